@@ -14,7 +14,7 @@ def extra(led, tier, seed):
     # fit performs max_iter x (one _update_weights per yielded pair): loop structure contracts of C03
     led.extend(o for o in fit_loop.obligations() if any(k in o.name for k in (
         "exactly one _update_weights call site", "batch loop iterates _batchify", "epoch loop is range(self.max_iter)",
-        "n_iter_ = max_iter", "_batchify(X, affinity, rng)")))
+        "n_iter_ = max_iter", "_batchify(X, affinity, rng)", "the array cut into batches", "the affinity is computed on that same array")))
     # the batch size the loops use is the one the caller gave: every constructor stores batch_size (and the other options) unchanged
     from contracts import forwarding
     led.extend(o for o in forwarding.init_obligations() if "GEMINI" not in o.name and not o.name.startswith("MI."))
